@@ -1219,7 +1219,6 @@ static bool parse_string(TokenContext &ctx, Chunk &pc, size_t quote_idx, bool al
       else if (  ch == '\r'
               && ctx.peek() != '\n')
       {
-         pc.Str().append(ctx.get());
          pc.SetNlCount(pc.GetNlCount() + 1);
          pc.SetType(CT_STRING_MULTI);
       }
